@@ -190,16 +190,26 @@ fn build_token(t: &str) -> Option<Tok> {
         vc.insert("credentialStatus".into(), json!({"id": "https://e.x/status#1", "type": "SomethingElse2020"}));
       }
       b => {
-        let idx: u32 = b.strip_prefix('b')?.parse().ok()?;
+        // b<idx>: well formed; m<idx>.<q>: the id names index q, the property idx; a<q>: the property is absent
         let issuer_did = match &issuer {
           Value::String(s) => s.clone(),
           Value::Object(o) => o.get("id")?.as_str()?.to_string(),
           _ => return None,
         };
-        vc.insert(
-          "credentialStatus".into(),
-          json!({"id": format!("{}?index={}#rev", issuer_did, idx), "type": "RevocationBitmap2022", "revocationBitmapIndex": idx.to_string()}),
-        );
+        let (prop, q): (Option<u32>, u32) = if let Some(x) = b.strip_prefix('b') {
+          let i = x.parse().ok()?;
+          (Some(i), i)
+        } else if let Some(x) = b.strip_prefix('m') {
+          let (i, q) = x.split_once('.')?;
+          (Some(i.parse().ok()?), q.parse().ok()?)
+        } else {
+          (None, b.strip_prefix('a')?.parse().ok()?)
+        };
+        let mut st = json!({"id": format!("{}?index={}#rev", issuer_did, q), "type": "RevocationBitmap2022"});
+        if let Some(i) = prop {
+          st.as_object_mut()?.insert("revocationBitmapIndex".into(), json!(i.to_string()));
+        }
+        vc.insert("credentialStatus".into(), st);
       }
     }
     let mut cl = Map::new();
@@ -567,7 +577,7 @@ pub fn gen(thorough: bool, seed: u64, out: &mut impl Write) {
   }
   // (e) status modes x status kinds x membership x service present; subject-holder modes x subject x nonTransferable
   for stc in ["strict", "skipu", "skipall"] {
-    for st in ["~", "o", "b5", "b6", "b9"] {
+    for st in ["~", "o", "b5", "b6", "b9", "m7.5", "m5.7", "a5", "a7"] {
       for bm in [";bm=5,9", ";bm=-", ""] {
         let mut s = Sc::base();
         s.stc = stc.into();
@@ -658,7 +668,7 @@ pub fn gen(thorough: bool, seed: u64, out: &mut impl Write) {
     s.typ = *r.pick(&[1, 1, 1, 0]);
     s.spe = *r.pick(&[0, 0, 1]);
     s.nt = r.pick(&["~", "0", "1"]).to_string();
-    s.st = r.pick(&["~", "o", "b5", "b7"]).to_string();
+    s.st = r.pick(&["~", "o", "b5", "b7", "m7.5", "a5"]).to_string();
     s.ee = *r.pick(&[500, 1000, 1001]);
     s.li = *r.pick(&[200, 100, 99]);
     s.sh = r.pick(&["~", "2.a", "3.a", "2.n", "3.n", "3.y"]).to_string();
